@@ -255,9 +255,16 @@ def r_names(c):
         pc = [x for x in ast.walk(st) if isinstance(x, ast.Call)
               and ast.unparse(x.func) == "Placeholder"][0]
         k2 = {k.arg: ast.unparse(k.value) for k in pc.keywords}
+        # the comprehension variable bound to the argument (second of the pair)
+        comp_ = pc._parent
+        while not isinstance(comp_, (ast.GeneratorExp, ast.ListComp, ast.DictComp)):
+            comp_ = comp_._parent
+        tg_ = comp_.generators[0].target
+        argv = tg_.elts[1].id if isinstance(tg_, ast.Tuple) and len(tg_.elts) == 2 \
+            and isinstance(tg_.elts[1], ast.Name) else "?"
         for f in ("shape", "dtype", "axes", "tags"):
-            c.check(k2.get(f) == f"arg.{f}", "R12-NAMES", "trace_call",
-                    f"{cname}:placeholder.{f}", m.loc(m.module_of(fd), pc),
+            c.check(k2.get(f) == f"{argv}.{f}", "R12-NAMES", "trace_call",
+                    f"{'positional' if kt is None else 'keyword'}:placeholder.{f}", m.loc(m.module_of(fd), pc),
                     f"the parameter placeholder's {f} is `{k2.get(f)}`, not the "
                     "argument's")
 
